@@ -288,8 +288,12 @@ impl Slots {
                             // We have successfully sent our replacement out (Release) and got
                             // their space in return (Acquire on that load above).
                             self.space_offer.store(their_space, SeqCst);
-                            // The ref count went with it, so forget about it here.
-                            T::into_ptr(replacement);
+                            // The ref count went with it, so forget about it here. Note that
+                            // since the exchange above it belongs to the other thread, which may
+                            // have released it already and the value may be gone. So we must not
+                            // turn it into the raw pointer any more (that looks inside), just
+                            // forget the handle.
+                            core::mem::forget(replacement);
                             // We have successfully helped out, so we are done.
                             break;
                         }
